@@ -455,6 +455,12 @@ func (c *PullClient) newRequest(method string, url *url.URL) *Request {
 }
 
 func (c *PullClient) receiveResponse() (resp *Response, err error) {
+	// 握手阶段的读取也要有超时：摄像头不回应时不能让请求方永远等下去
+	if timeout := config.NetTimeout(); timeout > 0 {
+		if err = c.conn.SetReadDeadline(time.Now().Add(timeout)); err != nil {
+			return nil, err
+		}
+	}
 	resp, err = ReadResponse(c.conn.Reader())
 	if err != nil {
 		return nil, err
